@@ -463,3 +463,45 @@ def segments_from(descriptor, total):
         return sizes
 
     return draw_segmentation(random.Random(descriptor['seed']), total)
+
+
+def append_unknown_addition(message, depth, tlv):
+    """Returns `message` with the TLV `tlv` appended at the end of the
+    contents of the constructed node found by following the LAST child
+    `depth` times from the outermost node (lengths of all enclosing nodes
+    adjusted), or None if the encoding has no such constructed node.  This
+    is what a sender using a newer version of an extensible type produces."""
+
+    def rebuild(data, level):
+        nodes = tlv_nodes(data, limit=4000)
+
+        if not nodes or nodes[0]['off'] != 0 or nodes[0]['end'] != len(data):
+            return None
+
+        outer = nodes[0]
+
+        if not outer['constructed']:
+            return None
+
+        header_tag = bytes(data[:outer['tag_len']])
+        content = bytes(data[outer['content']:outer['end']])
+
+        if level == 0:
+            new_content = content + tlv
+        else:
+            children = [n for n in nodes[1:] if n['depth'] == 1]
+
+            if not children:
+                return None
+
+            last = children[-1]
+            inner = rebuild(bytes(data[last['off']:last['end']]), level - 1)
+
+            if inner is None:
+                return None
+
+            new_content = content[:last['off'] - outer['content']] + inner
+
+        return header_tag + encode_length(len(new_content)) + new_content
+
+    return rebuild(bytes(message), depth)
